@@ -51,6 +51,21 @@ func unsupportedIDs() []string {
 		"BaseSumGate { num_limbs: 63 }",
 		"ConstantGate",
 	}
+	// every supported identifier that states an extension degree, with every other degree
+	seenType := map[string]int{}
+	for _, id := range gateGrid(true) {
+		if !strings.Contains(id, "<D=2>") {
+			continue
+		}
+		t := id[:strings.IndexAny(id, " {<")]
+		seenType[t]++
+		if seenType[t] > 2 {
+			continue
+		}
+		for _, d := range []string{"0", "1", "3", "4", "8", "22"} {
+			ids = append(ids, strings.Replace(id, "<D=2>", "<D="+d+">", 1))
+		}
+	}
 	return ids
 }
 
